@@ -10,6 +10,7 @@ import (
 	"encoding/json"
 	"fmt"
 	"os"
+	"reflect"
 	"runtime"
 	"strconv"
 	"strings"
@@ -182,17 +183,17 @@ func vfRunQuiescence() {
 	}
 }
 
-func vfYield()                 { runtime.Gosched() }
-func vfCensus() int            { return 0 }
-func vfCensusList() string     { return "" }
-func vfHarnessGoroutine()      {}
-func vfArmTimers(on bool)      {}
-func vfNote(s string)          {}
-func vfItoa(x int64) string    { return strconv.FormatInt(x, 10) }
-func vfIfaceEq(a, b any) bool  { return a == b }
-func vfIsSymbolic() bool       { return false }
-func vfOrderedMaps(b bool)     {}
-func vfTypeName(x any) string  { return fmt.Sprintf("%T", x) }
+func vfYield()                { runtime.Gosched() }
+func vfCensus() int           { return 0 }
+func vfCensusList() string    { return "" }
+func vfHarnessGoroutine()     {}
+func vfArmTimers(on bool)     {}
+func vfNote(s string)         {}
+func vfItoa(x int64) string   { return strconv.FormatInt(x, 10) }
+func vfIfaceEq(a, b any) bool { return a == b }
+func vfIsSymbolic() bool      { return false }
+func vfOrderedMaps(b bool)    {}
+func vfTypeName(x any) string { return fmt.Sprintf("%T", x) }
 func vfAsAssign(err error, target any) bool {
 	panic("vfAsAssign is engine-only")
 }
@@ -228,3 +229,19 @@ func (m *vfMutex) vfUnlock() { m.mu.Unlock() }
 // vfFreezeClock(true): until unfrozen, time.Now() keeps returning the last instant
 // (engine only; natively a no-op). Used to pin the instant a callee observes.
 func vfFreezeClock(on bool) {}
+
+// vfFieldLen returns the length of the map/slice/chan reached from pointer x through the
+// named (possibly unexported) fields.
+func vfFieldLen(x any, path string) int {
+	v := reflect.ValueOf(x)
+	for _, name := range strings.Split(path, ".") {
+		for v.Kind() == reflect.Ptr || v.Kind() == reflect.Interface {
+			v = v.Elem()
+		}
+		v = v.FieldByName(name)
+	}
+	for v.Kind() == reflect.Ptr || v.Kind() == reflect.Interface {
+		v = v.Elem()
+	}
+	return v.Len()
+}
